@@ -162,6 +162,67 @@ def replay_differential(prop, path):
         print(f'VIOLATION property={prop} replay={os.path.abspath(path)}'); return 1
     return 0
 
+# ---------------------------------------------------------------------------------------------- sanitizer as oracle (C20)
+import re as _re
+def run_sanitize(prop, spec, tier, known_ids, t0, args):
+    table = spec['table_thorough'] if tier == 'thorough' else spec['table_quick']
+    cfgs = spec['configs_thorough'] if tier == 'thorough' else spec['configs_quick']
+    jobs, meta = [], []
+    for c in cfgs:
+        for (src, parts, libs, flags) in table:
+            for k in (parts if parts is not None else [None]):
+                fl = tuple(flags) + ((f'-DGLMX_PART={k}',) if k is not None else ())
+                tag = os.path.splitext(os.path.basename(src))[0] + (f'p{k}' if k is not None else '')
+                jobs.append((src, c, fl, tag, (), tuple(libs))); meta.append((c, src, k))
+    bins = G.build_many(jobs)
+    env = {'UBSAN_OPTIONS': 'halt_on_error=0:print_stacktrace=0:report_error_type=1', 'ASAN_OPTIONS': 'halt_on_error=0:detect_leaks=0:detect_stack_use_after_return=0'}
+    from concurrent.futures import ThreadPoolExecutor
+    cap = spec['cap_thorough'] if tier == 'thorough' else spec['cap_quick']
+    def one(bm):
+        b, (c, src, k) = bm
+        r = G.run_driver(b, prop, c, tier, [], threads=4, cap=cap, quiet=True, env=env)
+        r['_src'] = src; r['_part'] = k
+        return r
+    with ThreadPoolExecutor(max_workers=4) as ex:
+        results = list(ex.map(one, zip(bins, meta)))
+    kfl = [k for k in G.load_known() if k['property'] == prop]
+    sites = set()
+    for r in results:
+        keep, kn = [], []
+        for v in r['violations']:
+            if v.get('vclass') != 80:
+                continue          # the drivers' own oracles belong to the other properties; only sanitizer reports count here
+            m = _re.match(r'UB (\S+) at (glm/[^:]+):(\d+):(\d+): (.*)', v.get('msg', ''))
+            v['_src'] = r['_src']; v['detail'] = {'kind': 'sanitizer', 'part': r['_part'], 'libs': [l for (s_, p_, l, f_) in table if s_ == r['_src']][0], 'flags': [f for (s_, p_, l, f) in table if s_ == r['_src']][0]}
+            kid = None
+            if m:
+                kind, file, line = m.group(1), m.group(2), int(m.group(3)); sites.add((file, line, kind))
+                for k in kfl:
+                    st = k['site']
+                    if st.get('file') == file and st.get('kind') == kind and abs(int(st.get('line', line)) - line) <= int(st.get('line_slack', 0)):
+                        kid = k['id']; break
+            if kid:
+                v['kf'] = kid; kn.append(v)
+            else:
+                keep.append(v)
+        r['violations'] = keep; r['known'] = kn
+    cov = {'sanitizer_configurations': cfgs, 'operation_table': [f"{s_}{'[parts ' + ','.join(map(str, p_)) + ']' if p_ is not None else ''}" for (s_, p_, l, f) in table],
+           'distinct_report_sites_seen': sorted(f'{f}:{l} {k}' for (f, l, k) in sites), 'domain_cap': cap,
+           'explanation': 'every driver restricts its inputs to the documented domain of the function under test before calling it, so every sanitizer report raised inside a glm/ source file is undefined behaviour inside a documented domain'}
+    return G.report(prop, tier, spec['level'], results, spec['rule'], t0, extra_cov=cov)
+
+def replay_sanitize(prop, path):
+    rec = _json.load(open(path)); d = rec['detail']
+    fl = tuple(d['flags']) + ((f"-DGLMX_PART={d['part']}",) if d['part'] is not None else ())
+    tag = os.path.splitext(os.path.basename(rec['driver']))[0] + (f"p{d['part']}" if d['part'] is not None else '')
+    b = G.build(rec['driver'], rec['config'], fl, tag, (), tuple(d['libs']))
+    env = dict(os.environ); env.update({'UBSAN_OPTIONS': 'halt_on_error=0:print_stacktrace=1', 'ASAN_OPTIONS': 'halt_on_error=0:detect_leaks=0'})
+    r = subprocess.run([b, '--replay-op', rec['op'], '--replay-words', ','.join(rec['input_bits'])], capture_output=True, text=True, env=env)
+    print(r.stdout + r.stderr[-3000:])
+    if r.returncode == 1:
+        print(f'VIOLATION property={prop} replay={os.path.abspath(path)}')
+    return r.returncode
+
 def mc_c02(results):
     st = tr = 0
     for r in results:
@@ -187,7 +248,17 @@ _C15_TABLE_Q = [('drivers/c01.cpp', [0, 3, 5, 7], [], ['-O1']), ('drivers/c11.cp
                 ('drivers/c18.cpp', None, [], []), ('drivers/c06.cpp', None, [], []), ('drivers/c13.cpp', None, [], [])]
 _C15_TABLE_T = [('drivers/c01.cpp', list(range(15)), [], ['-O1'])] + _C15_TABLE_Q[1:] + [('drivers/c07.cpp', None, [], []), ('drivers/c12.cpp', None, [], []), ('drivers/c02.cpp', [0, 1, 2], [], ['-O1']), ('drivers/c04.cpp', None, [], []), ('drivers/c09.cpp', None, [], ['-DC09_RECOMPOSE_DOUBLE']), ('drivers/c10.cpp', None, [], []), ('drivers/c19.cpp', None, [], [])]
 
+_C20_TABLE_Q = [('drivers/c01.cpp', [0, 3, 5, 7, 9, 11], [], []), ('drivers/c11.cpp', None, [], []), ('drivers/c14.cpp', None, [], []), ('drivers/c05.cpp', None, [], []), ('drivers/c18.cpp', None, [], []),
+                ('drivers/c06.cpp', None, [], []), ('drivers/c07.cpp', None, [], []), ('drivers/c02.cpp', [0, 1], [], []), ('drivers/c12.cpp', None, [], []), ('drivers/c13.cpp', None, [], []), ('drivers/c19.cpp', None, [], [])]
+_C20_TABLE_T = [('drivers/c01.cpp', list(range(15)), [], [])] + _C20_TABLE_Q[1:7] + [('drivers/c02.cpp', list(range(7)), [], []), ('drivers/c12.cpp', None, [], []), ('drivers/c13.cpp', None, [], []), ('drivers/c19.cpp', None, [], []),
+                ('drivers/c04.cpp', None, [], []), ('drivers/c08.cpp', None, [], ['-DC08_HAVE_INFINITEPERSPECTIVE_LH_RH']), ('drivers/c09.cpp', None, [], ['-DC09_RECOMPOSE_DOUBLE']), ('drivers/c10.cpp', None, [], [])]
+
 PROPS = {
+ 'C20': dict(run=run_sanitize, replay=replay_sanitize, level='exploration', src='drivers/c01.cpp', table_quick=_C20_TABLE_Q, table_thorough=_C20_TABLE_T,
+   configs_quick=['ubsan'], configs_thorough=['ubsan', 'ubsan_avx2'], cap_quick=20000, cap_thorough=200000,
+   technique='exhaustive enumeration of the other properties\' input domains (restricted by each function\'s documented precondition) through clang UndefinedBehaviorSanitizer + AddressSanitizer instrumented builds of the same drivers; the sanitizer runtime is the oracle and its report hook attributes every report to the (operation, input) being evaluated',
+   text='The drivers of the other properties are rebuilt with -fsanitize=undefined,float-cast-overflow,address -fsanitize-recover=all and their domains are enumerated again (domains larger than the cap on the sub-lattice of every s-th index); the weak hooks __ubsan_on_report / __asan_on_error record kind, file, line and the current (op, input), so every distinct undefined operation inside a glm/ source file within a documented domain becomes a replayable violation. Known findings are keyed by (file, line, kind).',
+   rule='operation table x documented-precondition filter of each driver (out-of-domain inputs are skipped before GLM is called) x sanitizer configurations {clang pure, clang AVX2 in thorough}; evaluations are instrumented executions.'),
  'C16': dict(src='drivers/c16.cpp', level='exploration', parts=6, flags=['-O0'],
    configs=['default', 'swizzle', 'xyzw_only', 'size_t_length', 'quat_wxyz', 'ctor_init', 'cxx98', 'intr_sse2', 'intr_avx', 'intr_avx2', 'intr_avx2_defaligned', 'swizzle_intr'],
    technique='exhaustive enumeration of the program space: every vec<L,T,Q>, mat<C,R,T,Q>, qua<T,Q> instantiation (L 1..4, C,R 2..4, 11 element types, packed and - with intrinsics - aligned qualifiers) x 12 build configurations, each layout fact observed by executing the generated program and compared with the documented contract',
